@@ -122,6 +122,8 @@ func newHostWorld(t *testing.T) *hostWorld {
 
 	rev := w.formContract(200)
 	w.fcid = rev.ID()
+	// confirm the formation, so that a renewal of the contract can enter the transaction pool
+	testutil.MineAndSync(t, w.node, w.node.Wallet.Address(), 1)
 	w.sess, err = proto3.NewSession(context.Background(), w.hostKey.PublicKey(), w.sh3.LocalAddr(), w.node.Chain, w.node.Wallet)
 	if err != nil {
 		t.Fatal(err)
@@ -429,7 +431,7 @@ func (sp instrSpec) instruction() (crhp3.Instruction, error) {
 // rawObject lets the hostile renter put arbitrary bytes where a protocol object is expected.
 type rawObject []byte
 
-func (r rawObject) EncodeTo(e *types.Encoder) { e.Write(r) }
+func (r rawObject) EncodeTo(e *types.Encoder)    { e.Write(r) }
 func (r *rawObject) DecodeFrom(d *types.Decoder) {}
 
 type x3result struct {
@@ -441,12 +443,13 @@ type x3result struct {
 }
 
 // buildProgramData places little-endian words; blobs: `off:kind:arg`
-//   root:<i>   32-byte root of contract sector i (i >= 100: a root the host does not know)
-//   pk         ed25519 unlock key (16-byte specifier + 32-byte key) of registry key `regkey`
-//   badpk      unlock key with a foreign algorithm specifier
-//   tweak:<t>  32-byte tweak
-//   sig:<v>    64-byte signature of the registry entry described by `regent` (v=0: corrupted)
-//   sector:<s> a 4 MiB sector with sequence number s (0 = all zero)
+//
+//	root:<i>   32-byte root of contract sector i (i >= 100: a root the host does not know)
+//	pk         ed25519 unlock key (16-byte specifier + 32-byte key) of registry key `regkey`
+//	badpk      unlock key with a foreign algorithm specifier
+//	tweak:<t>  32-byte tweak
+//	sig:<v>    64-byte signature of the registry entry described by `regent` (v=0: corrupted)
+//	sector:<s> a 4 MiB sector with sequence number s (0 = all zero)
 func (w *hostWorld) buildProgramData(p vhlib.ParsedLine) ([]byte, error) {
 	pdlen := p.U64("pdlen")
 	if pdlen > 2*sectorSize+(1<<16) {
@@ -610,18 +613,20 @@ func waitHandlerDone(s *crhp3.Stream) error {
 }
 
 // payment writes the payment part of an RHP3 request.  mode:
-//   acct           pay `amount` by ephemeral account (valid signature)
-//   acct_badsig    same with a corrupted signature
-//   acct_expired   expiry below the price table height
-//   acct_zero      zero amount
-//   c_ok           pay by contract, correct revision
-//   c_sumovf       pay by contract, host output raised to 2^128-1 (output sum overflows)
-//   c_lenmore / c_lenless / c_empty   mismatched output lists
-//   c_badsig       correct values, corrupted signature
-//   c_samerev      revision number not increased
-//   c_more         renter output increased
-//   c_unknown      a contract id the host does not know
-//   c_overdraw     more than the renter has left
+//
+//	acct           pay `amount` by ephemeral account (valid signature)
+//	acct_badsig    same with a corrupted signature
+//	acct_expired   expiry below the price table height
+//	acct_zero      zero amount
+//	c_ok           pay by contract, correct revision
+//	c_sumovf       pay by contract, host output raised to 2^128-1 (output sum overflows)
+//	c_lenmore / c_lenless / c_empty   mismatched output lists
+//	c_badsig       correct values, corrupted signature
+//	c_samerev      revision number not increased
+//	c_more         renter output increased
+//	c_unknown      a contract id the host does not know
+//	c_overdraw     more than the renter has left
+//
 // A contract payment larger than the renter's funds zeroes the renter outputs and still adds
 // `amount` to the host outputs (the sums no longer match).
 func (w *hostWorld) writePayment(s *crhp3.Stream, mode string, amount types.Currency) error {
